@@ -197,6 +197,8 @@ def main(argv=None):
         path = write_replay(pid, seed, "broken", payload)
         print("VIOLATION property=%s replay=%s no-failing-input-found" % (pid, path))
         print("  no longer checks: %s" % ", ".join(names))
+        for s_, c_, i_, m_ in ctx.disagreements[:2]:
+            print("  disagreement[%s]: impl=%s model=%s" % (s_, json.dumps(i_, default=str)[-700:], json.dumps(m_, default=str)[:200]))
         rc = 1
     write_evidence(ctx, mod, unknown + (1 if rc and not unknown else 0))
     print("%s %s tier=%s seed=%d evaluations=%d distinct_nontrivial=%d theorems=%d wall=%.1fs" % (
